@@ -42,19 +42,24 @@ class ScriptedServer:
     def __init__(self):
         self.scripts = {}  # request id (first path component) -> script
         self.log = {}  # request id -> list of attempts {"seen", "last", "closed"}
-        self.server = None
+        self.servers = []
         self.port = None
+        self.ports = []
         self.handlers = set()
 
     async def start(self):
+        # two listeners = two target hosts of the client (it spreads its requests over them); one script table, one log
         try:
-            self.server = await asyncio.start_server(self._handle, "127.0.0.1", 0)
+            for _ in range(2):
+                self.servers.append(await asyncio.start_server(self._handle, "127.0.0.1", 0))
         except OSError as ex:
             raise tlc.MachineryError("cannot listen on the loopback interface: %s" % ex) from ex
-        self.port = self.server.sockets[0].getsockname()[1]
+        self.ports = [srv.sockets[0].getsockname()[1] for srv in self.servers]
+        self.port = self.ports[0]
 
     async def stop(self):
-        self.server.close()
+        for srv in self.servers:
+            srv.close()
         for t in list(self.handlers):
             t.cancel()
         await asyncio.gather(*self.handlers, return_exceptions=True)
@@ -368,7 +373,9 @@ async def _round(pid, names, seed):
     clients = []
     try:
         for k, name in enumerate(names):
-            es = client.EsClientFactory(hosts=[{"host": "127.0.0.1", "port": server.port}], client_options={}).create_async(client_id=k)
+            # every second client talks to two target hosts (round robin over both listeners), the others to one
+            ports = server.ports if k % 2 == 0 else server.ports[:1]
+            es = client.EsClientFactory(hosts=[{"host": "127.0.0.1", "port": p} for p in ports], client_options={}).create_async(client_id=k)
             clients.append(es)
             rnd = random.Random("%s/%s/%d" % (pid, name, seed))
             scns.append((Scenario(name, pid, server, es, "s%d" % k), lambda rnd=rnd: rnd.choice([0.15, 0.2, 0.25, 0.3, 0.4])))
